@@ -87,6 +87,7 @@ class Executor:
         self.cur_old: Heap | None = None
         self.path_limit = 4000
         self.paths = 0
+        self.cur_contract = None
 
     # ------------------------------------------------------------------
     # obligations
@@ -131,6 +132,11 @@ class Executor:
         if k == "opt":
             return z3.And(z3.Not(v.v[0]), self.truth(v.v[1]))
         if k == "ref":
+            if self.resolve_method(v.ty.cls, "__len__") is not None or self.resolve_method(v.ty.cls, "__bool__") is not None:
+                hook = self.w.call_hooks.get(("truth", "ref:" + v.ty.cls))
+                if hook is None:
+                    raise Unsupported(f"truthiness of {v.ty.cls} (defines __len__/__bool__)")
+                return hook(self, v)
             return v.v != 0
         if k == "tuple":
             return z3.BoolVal(len(v.v) > 0)
@@ -530,6 +536,11 @@ class Executor:
                     for st2, r in hook(self, a, b, st, sink):
                         yield st2, (r if isinstance(op, ast.In) else z3.Not(r))
                     return
+                if kb == "ref":
+                    for st2, m in self.getattr(b, "__contains__", st, sink, node):
+                        for st3, r in self.call(m, [a], {}, st2, sink, node):
+                            yield st3, (self.truth(r) if isinstance(op, ast.In) else z3.Not(self.truth(r)))
+                    return
                 raise Unsupported(f"`in` on {b.ty!r}")
             yield st, (e if isinstance(op, ast.In) else z3.Not(e))
             return
@@ -793,6 +804,10 @@ class Executor:
         if hook:
             yield from hook(self, base, idx, st, sink, node)
             return
+        if k == "ref":
+            for st2, m in self.getattr(base, "__getitem__", st, sink, node):
+                yield from self.call(m, [idx], {}, st2, sink, node)
+            return
         raise Unsupported(f"subscript of {base.ty!r} line {getattr(node, 'lineno', '?')}")
 
     # -- calls ----------------------------------------------------------
@@ -1034,8 +1049,22 @@ class Executor:
         return out
 
     def apply_contract(self, c: Contract, args, kwargs, st: State, sink, node=None):
+        variants = self.w.variants.get(c.target)
+        bound = None
+        if variants:
+            err = None
+            for cv in variants:
+                try:
+                    bound = self.bind_contract_args(cv, args, kwargs, st)
+                    c = cv
+                    break
+                except Unsupported as e:
+                    err = e
+            if bound is None:
+                raise err
         (self.used_trusted if c.trusted else self.used_contracts).add(c.target)
-        bound = self.bind_contract_args(c, args, kwargs, st)
+        if bound is None:
+            bound = self.bind_contract_args(c, args, kwargs, st)
         a = Args(bound)
         h = HeapView(st.heap.copy(), st.held)
         for label, f in c.requires(a, h):
@@ -1075,7 +1104,7 @@ class Executor:
                     rarg = res.t
                 except Unsupported:
                     rarg = res
-            s2.assume(*case.post(a, h, h2, rarg))
+            s2.assume(*(case.post_assume or case.post)(a, h, h2, rarg))
             if case.kind == "return":
                 yield s2, res
             else:
@@ -1118,6 +1147,10 @@ class Executor:
 
     def set_field(self, st, ref: SV, name: str, val: SV):
         fd = st.heap.fd(ref.ty.cls, name)
+        mon = self.w.monitor_guarding(ref.ty.cls, name)
+        if mon is not None and not st.ghost.get("$constructing"):
+            lock = st.heap.get(SV(REF(mon.cls), ref.v), mon.lockfield)
+            self.oblige(st, "lock", f"{mon.cls}.{name}:written-under-{mon.lockfield}", HeapView(st.heap, st.held).holds(lock.v))
         if self.written_fields is not None:
             self.written_fields.add(fd.key)
         if val.ty.kind == "seq" and fd.ty.kind == "seq" and val.ty != fd.ty:
@@ -1423,8 +1456,32 @@ class Executor:
             if hook is None and cm.ty.kind == "ref" and self.w.schema.issub(cm.ty.cls, "Lock"):
                 if item.optional_vars is not None:
                     raise Unsupported("with lock as name")
+                mon, owner = None, None
+                if isinstance(ce, ast.Attribute):
+                    owners = list(self.ev(ce.value, st2, outs))
+                    if len(owners) == 1 and owners[0][1].ty.kind == "ref":
+                        owner = owners[0][1]
+                        for c in self.w.schema.mro(owner.ty.cls):
+                            mon = self.w.monitors.get((c, ce.attr))
+                            if mon:
+                                break
+                reentrant = any(x.eq(cm.v) for x in st2.held)
                 st2.held = st2.held + (cm.v,)
+                if mon is not None and not reentrant:
+                    for f in mon.protected:
+                        st2.heap.havoc_at(SV(REF(mon.cls), owner.v), f)
+                        if self.written_fields is not None:
+                            self.written_fields.add(st2.heap.fd(mon.cls, f).key)
+                    hv = HeapView(st2.heap, st2.held)
+                    st2.assume(*[f_ for _, f_ in mon.invariant_assume(hv, owner.v)])
+                    if self.cur_contract is not None and self.cur_contract.linearize_at_lock and not st2.ghost.get("$linearized"):
+                        st2.ghost = dict(st2.ghost)
+                        st2.ghost["$linearized"] = HeapView(st2.heap.copy(), st2.held)
                 for s3, fl in self.exec_block(node.body, st2):
+                    if mon is not None and not reentrant:
+                        hv = HeapView(s3.heap, s3.held)
+                        for label, f_ in mon.invariant(hv, owner.v):
+                            self.oblige(s3, "mon-pres", f"{mon.cls}.{mon.lockfield}:{label}", f_)
                     s3.held = s3.held[:-1]  # balanced: inner with-blocks have released theirs on every exit
                     outs.append((s3, fl))
                 continue
@@ -1691,6 +1748,9 @@ class Executor:
 
     def iter_model(self, it: SV, st):
         k = it.ty.kind
+        hook0 = self.w.call_hooks.get(("iter", k)) if k != "ref" else None
+        if hook0 is not None:
+            return hook0(self, it, st)
         if k == "seq":
             return z3.Length(it.v), (lambda i: unflat(it.ty.elem, [it.v[i]]))
         if k in ("str", "bytes"):
@@ -1709,6 +1769,7 @@ class Executor:
             raise Unsupported(f"function {c.target} not found in the current tree (renamed or removed)")
         fn = mod.func(c.qualname)
         self.func_under_check = c.qualname
+        self.cur_contract = c
         before = len(self.obligations)
         st = State(self.w.schema)
         params = {}
@@ -1754,7 +1815,9 @@ class Executor:
 
     def check_exits(self, c: Contract, a: Args, h0: HeapView, flows):
         mods_cells = c.modifies(a, h0)
+        h0_entry = h0
         for st, fl in flows:
+            h0 = st.ghost.get("$linearized") or h0_entry
             h2 = HeapView(st.heap)
             if fl[0] in (NEXT, RETURN):
                 res = fl[1] if fl[0] == RETURN else NONEV
